@@ -277,6 +277,13 @@ def run(ctx: core.Ctx):
         env.close()
     ctx.evals += nwire
 
+    # ---- whole histories of prepared-statement commands on one connection against Model/Stmts.v (the statement table with
+    #      its long-data buffers): what an earlier command leaves behind is what a later one finds
+    import stmts_corr
+    nhist, nops, hbad, hkinds = stmts_corr.run(ctx, "c06s", 40 if ctx.quick else 800)
+    ctx.evals += nops
+    disagreements += hbad
+
     if witness is not None:
         core.report_violation(ctx, "a parameter value is not bound as exactly one literal / placeholders miscounted", witness)
     if (not pr["ok"] or disagreements) and not ctx.violations:
@@ -297,9 +304,13 @@ def run(ctx: core.Ctx):
              "texts over a quote-rich alphabet x parameter tuples (hostile strings with quotes, backslashes, ?, NUL, newline, regex "
              "replacement syntax, high bytes, >250 bytes; ints of every width/sign at the boundaries; floats; NULLs) through the real "
              "parse_com_stmt_execute vs Exec.execute_sql; independent sqlglot-tokenizer oracle on the received SQL; through the wire: "
-             "announced parameter count vs count_params, long data in random chunkings, repeated executions. distinct = (template, packet)",
+             "announced parameter count vs count_params, long data in random chunkings, repeated executions; whole histories of "
+             "PREPARE / SEND_LONG_DATA (known and unknown statements, empty chunks, truncated) / EXECUTE (inline, long data, NULL, "
+             "attributes, cursor flag, truncated; accepted or refused by the application) / RESET / CLOSE over several statements on "
+             "one connection, operation by operation against Model/Stmts.v (srun). distinct = (template, packet)",
         samples=samples, distinct=len(distinct),
-        extra=dict(cases_with_hostile_strings=n_hostile, wire_executions=nwire, disagreements=len(disagreements)),
+        extra=dict(cases_with_hostile_strings=n_hostile, wire_executions=nwire, disagreements=len(disagreements),
+                   statement_histories=nhist, history_operations=nops, history_outcomes=hkinds),
         assumptions=["latin1 as client character set in the byte-exact runs (decoding = identity)",
                      "repr(float) supplied to the model by the harness; sqlglot's MySQL tokenizer is the downstream consumer used as oracle"],
     )
